@@ -162,3 +162,157 @@ Proof.
   intros H. unfold ck_parse_time. rewrite ck_fmt06_fixed by exact H.
   rewrite ck_parse_fixed by (cbn; lia). lia.
 Qed.
+
+(** * The repaired selection (2367528, a4e5b38): max(files, key = float(time text of the name))
+
+    A time stamp is counted in half units [h] (t = h/2) so that the times of a float time step 0.5 are
+    covered: an int time t is written "{:06}".format(t) (h = 2t), a float time is written
+    "{:06}".format(float): str(int part) "." "0"|"5", zero-padded on the left to width 6. *)
+(** character codes of the time text: digits + 48, '.' = 46 *)
+Definition ck_text_int (t : N) : list N := map (N.add 48) (ck_fmt06 t).
+Definition ck_text_half (h : N) : list N :=
+  let body := map (N.add 48) (ck_str (h / 2)) ++ [46; 48 + (if h mod 2 =? 0 then 0 else 5)] in
+  repeat 48 (6 - length body)%nat ++ body.
+
+(** a stamp: (half units, written as a float?) *)
+Definition ck_stamp : Type := (N * bool)%type.
+Definition ck_stamp_text (s : ck_stamp) : list N :=
+  if snd s then ck_text_half (fst s) else ck_text_int (fst s / 2).
+Definition ck_stamp_name (s : ck_stamp) : list N := ck_prefix ++ ck_stamp_text s ++ ck_suffix.
+
+(** os.path.splitext(basename)[0].split('_')[-1] under the naming convention: drop "grid_" and ".h5" *)
+Definition ck_strip (name : list N) : list N := firstn (length name - 8) (skipn 5 name).
+
+(** float(text) in half units: digits before the first '.', then 0 or 1 half *)
+Fixpoint ck_key_text (acc : N) (l : list N) : N :=
+  match l with
+  | [] => 2 * acc
+  | c :: r => if c =? 46 then 2 * acc + (match r with d :: _ => if d =? 53 then 1 else 0 | [] => 0 end)
+              else ck_key_text (10 * acc + (c - 48)) r
+  end.
+Definition ck_key (name : list N) : N := ck_key_text 0 (ck_strip name).
+
+Definition ck_latest_name (names : list (list N)) : option (list N) :=
+  ck_pymax (fun a b => ck_key a <? ck_key b) names.
+
+(** ** str(n) read back, for every n below 10^20 *)
+Lemma ck_str_aux_spec fuel : forall n acc, n < 10 ^ N.of_nat fuel ->
+  exists ds, ck_str_aux fuel n acc = ds ++ acc /\ Forall (fun d => d < 10) ds /\
+             forall a, fold_left (fun x d => 10 * x + d) ds a = 10 ^ N.of_nat (length ds) * a + n.
+Proof.
+  induction fuel as [|f IH]; intros n acc Hn.
+  - cbn [N.of_nat] in Hn. rewrite N.pow_0_r in Hn. assert (n = 0) by lia. subst n.
+    exists []. split; [reflexivity|]. split; [constructor|]. intros a. cbn [fold_left length N.of_nat]. rewrite N.pow_0_r. lia.
+  - cbn [ck_str_aux]. rewrite Nat2N.inj_succ, N.pow_succ_r' in Hn.
+    pose proof (N.div_mod n 10 ltac:(lia)) as E. pose proof (N.mod_lt n 10 ltac:(lia)) as U.
+    destruct (N.eqb_spec (n / 10) 0) as [Z|NZ].
+    + exists [n mod 10]. repeat split; [constructor; [exact U|constructor]|].
+      intros a. cbn [fold_left length N.of_nat Pos.of_succ_nat]. rewrite N.pow_1_r. lia.
+    + destruct (IH (n / 10) (n mod 10 :: acc)) as [ds [E1 [F1 P1]]].
+      { apply N.div_lt_upper_bound; lia. }
+      exists (ds ++ [n mod 10]). rewrite <- app_assoc. cbn [app]. repeat split; [exact E1| |].
+      * apply Forall_app. split; [exact F1|constructor; [exact U|constructor]].
+      * intros a. rewrite fold_left_app. cbn [fold_left]. rewrite P1, app_length. cbn [length].
+        rewrite Nat.add_1_r, Nat2N.inj_succ, N.pow_succ_r'. lia.
+Qed.
+
+Lemma ck_key_text_digits ds : forall acc rest, Forall (fun d => d < 10) ds ->
+  ck_key_text acc (map (N.add 48) ds ++ rest) = ck_key_text (fold_left (fun x d => 10 * x + d) ds acc) rest.
+Proof.
+  induction ds as [|d ds IH]; intros acc rest H; cbn [map app fold_left]; [reflexivity|].
+  inversion H as [|? ? Hd Hds]; subst. cbn [ck_key_text].
+  destruct (N.eqb_spec (48 + d) 46) as [E|_]; [lia|].
+  replace (48 + d - 48) with d by lia. apply IH. exact Hds.
+Qed.
+
+Lemma ck_key_text_zeros k : forall rest, ck_key_text 0 (repeat 48 k ++ rest) = ck_key_text 0 rest.
+Proof. induction k as [|k IH]; intros rest; cbn [repeat app ck_key_text]; [reflexivity|]. cbn. apply IH. Qed.
+
+(** the key of the text of a stamp is its value (in half units) *)
+Lemma ck_key_text_int t : t < 10 ^ 20 -> ck_key_text 0 (ck_text_int t) = 2 * t.
+Proof.
+  intros H. unfold ck_text_int, ck_fmt06, ck_str.
+  destruct (ck_str_aux_spec 20 t [] H) as [ds [E [F P]]]. rewrite E, app_nil_r.
+  rewrite map_app. replace (map (N.add 48) (repeat 0 (6 - length ds))) with (repeat 48 (6 - length ds)).
+  - rewrite ck_key_text_zeros. rewrite <- (app_nil_r (map _ ds)), ck_key_text_digits by exact F.
+    cbn [ck_key_text]. rewrite P. lia.
+  - induction (6 - length ds)%nat as [|k IH]; cbn [repeat map]; [reflexivity|]. rewrite <- IH. reflexivity.
+Qed.
+
+Lemma ck_key_text_half h : h / 2 < 10 ^ 20 -> ck_key_text 0 (ck_text_half h) = h.
+Proof.
+  intros H. unfold ck_text_half, ck_str.
+  destruct (ck_str_aux_spec 20 (h / 2) [] H) as [ds [E [F P]]]. rewrite E, app_nil_r.
+  rewrite ck_key_text_zeros, ck_key_text_digits by exact F.
+  cbn [ck_key_text]. rewrite N.eqb_refl, P.
+  pose proof (N.div_mod h 2 ltac:(lia)) as Eh. pose proof (N.mod_lt h 2 ltac:(lia)) as Uh.
+  destruct (N.eqb_spec (h mod 2) 0) as [Z|NZ].
+  - change (48 + 0 =? 53) with false. cbv iota. rewrite N.mul_0_r. lia.
+  - change (48 + 5 =? 53) with true. cbv iota. rewrite N.mul_0_r. lia.
+Qed.
+
+Definition ck_stamp_ok (s : ck_stamp) : Prop :=
+  fst s / 2 < 10 ^ 20 /\ (snd s = false -> fst s mod 2 = 0).
+
+Lemma ck_strip_name s : ck_strip (ck_stamp_name s) = ck_stamp_text s.
+Proof.
+  unfold ck_strip, ck_stamp_name. rewrite !app_length. cbn [ck_prefix ck_suffix length app skipn].
+  replace (5 + (length (ck_stamp_text s) + 3) - 8)%nat with (length (ck_stamp_text s) + 0)%nat by lia.
+  rewrite firstn_app_2. cbn [firstn]. apply app_nil_r.
+Qed.
+
+Theorem ck_key_name s : ck_stamp_ok s -> ck_key (ck_stamp_name s) = fst s.
+Proof.
+  intros [Hb He]. unfold ck_key. rewrite ck_strip_name. unfold ck_stamp_text.
+  destruct s as [h [|]]; cbn [fst snd] in *.
+  - apply ck_key_text_half. exact Hb.
+  - rewrite ck_key_text_int by exact Hb. specialize (He eq_refl).
+    pose proof (N.div_mod h 2 ltac:(lia)). lia.
+Qed.
+
+(** max by a key commutes with naming when the key of a name is the value of what it names *)
+Lemma ck_pymax_key {A B} (f : A -> B) (key : B -> N) (val : A -> N) l :
+  Forall (fun a => key (f a) = val a) l ->
+  ck_pymax (fun x y => key x <? key y) (map f l) = option_map f (ck_pymax (fun a b => val a <? val b) l).
+Proof.
+  destruct l as [|a l]; intros H; [reflexivity|]. cbn [map ck_pymax option_map]. f_equal.
+  inversion H as [|? ? Ha Hl]; subst. clear H. revert a Ha.
+  induction l as [|b l IH]; intros a Ha; cbn [map fold_left]; [reflexivity|].
+  inversion Hl as [|? ? Hb Hl']; subst. rewrite Ha, Hb.
+  destruct (val a <? val b); apply IH; assumption.
+Qed.
+
+(** the latest checkpoint chosen by the repaired code is the one with the largest time, for all times
+    (int or half-integer float stamps, any number of digits below 10^20) *)
+Theorem ck_latest_by_key stamps : Forall ck_stamp_ok stamps ->
+  ck_latest_name (map ck_stamp_name stamps) =
+  option_map ck_stamp_name (ck_pymax (fun a b => fst a <? fst b) stamps).
+Proof.
+  intros H. unfold ck_latest_name. apply ck_pymax_key.
+  eapply Forall_impl; [|exact H]. intros s Hs. apply ck_key_name. exact Hs.
+Qed.
+
+Lemma ck_pymax_val_is_max {A} (val : A -> N) l a :
+  ck_pymax (fun x y => val x <? val y) l = Some a -> In a l /\ forall b, In b l -> val b <= val a.
+Proof.
+  destruct l as [|a0 l]; [discriminate|]. cbn [ck_pymax]. intros H. injection H as H. subst a.
+  revert a0. induction l as [|u l IH]; intros a0; cbn [fold_left].
+  - split; [left; reflexivity|]. intros b [->|[]]. lia.
+  - destruct (N.ltb_spec (val a0) (val u)) as [L|L].
+    + destruct (IH u) as [I1 I2]. split.
+      * destruct I1 as [E|I]; [right; left; exact E|right; right; exact I].
+      * intros v [->|[->|I]]; [|apply I2; left; reflexivity|apply I2; right; exact I].
+        specialize (I2 u (or_introl eq_refl)). lia.
+    + destruct (IH a0) as [I1 I2]. split.
+      * destruct I1 as [E|I]; [left; exact E|right; right; exact I].
+      * intros v [->|[->|I]]; [apply I2; left; reflexivity| |apply I2; right; exact I].
+        specialize (I2 a0 (or_introl eq_refl)). lia.
+Qed.
+
+(** examples: "grid_1000000.h5" now beats "grid_999999.h5"; "grid_0001.5.h5" beats "grid_000001.h5" *)
+Example ck_latest_examples :
+  ck_latest_name (map ck_stamp_name [(1999998, false); (2000000, false)]) = Some (ck_name 1000000) /\
+  ck_latest_name (map ck_stamp_name [(2, false); (3, true); (0, false)]) =
+    Some (ck_prefix ++ [48; 48; 48; 49; 46; 53] ++ ck_suffix) /\
+  ck_stamp_name (24, true) = ck_prefix ++ [48; 48; 49; 50; 46; 48] ++ ck_suffix.
+Proof. vm_compute. repeat split. Qed.
